@@ -24,6 +24,8 @@ structure WatcherIn where
   /-- kinds the consumer keeps in its first map (slot 0); every other kind goes to slot 1 -/
   pipeKinds : List Nat := []
   createChecks : Bool := true
+  /-- the consumer keeps its maps in a namespace object (`_cleanSpace`) -/
+  namespaced : Bool := false
 
 structure In where
   cats : List Nat
@@ -59,7 +61,8 @@ def parseIn (j : Json) : Except String In := do
     let pk := match getIntList w "pipeKinds" with | .ok l => l.map Int.toNat | .error _ => []
     pure ({ cats := cs.map Int.toNat, all := optBool w "all", consumer := optBool w "consumer",
             noEvents := optBool w "noEvents" || optBool j "noEvents", pipeKinds := pk,
-            createChecks := optBool w "createChecks" true } : WatcherIn)
+            createChecks := optBool w "createChecks" true,
+            namespaced := optBool w "namespaced" } : WatcherIn)
   let hs ← getArr j "hist"
   let hist ← hs.toList.mapM fun h => do
     if optBool h "isSnap" then
@@ -88,6 +91,7 @@ def mkParams (inp : In) (w : WatcherIn) : Params :=
     filter := fun c => w.all || w.cats.contains c
     slot := fun k => if w.pipeKinds.isEmpty || w.pipeKinds.contains k then 0 else 1
     createChecks := w.createChecks
+    namespaced := w.namespaced
     panics := fun op n e => inp.panics.contains (opNat op, n, e.kind, e.body)
     order := fun _ _ m => m }
 
@@ -115,6 +119,8 @@ def parseCall (j : Json) : Except String Call := do
   pure ⟨op, nat v[1]!, ⟨nat v[2]!, nat v[3]!, nat v[4]!⟩, prev, v[8]! != 0⟩
 
 structure ObsStep where
+  /-- does the traffic controller's namespace exist (-1: not observed) -/
+  nsExists : Int := -1
   events : List (Nat × Event)
   wents : List (Nat × List (Nat × Entity)) := []
   log : List Call
@@ -138,7 +144,7 @@ def parseStep (j : Json) : Except String ObsStep := do
   let log ← ls.toList.mapM parseCall
   let live ← parseEnts j "live"
   let reg ← parseEnts j "reg"
-  pure { events := events, wents := wents, log := log, live := live, reg := reg }
+  pure { nsExists := optInt j "ns" (-1), events := events, wents := wents, log := log, live := live, reg := reg }
 
 /-- insertion sort (small lists) -/
 def insertBy {α} (lt : α → α → Bool) (x : α) : List α → List α
@@ -208,6 +214,10 @@ def judge : Judge := liftJudge fun input obs => do
   let mut sawReappear := false
   let mut sawInvalid := false
   let mut panicHit := false
+  let mut lastGateLeft := false
+  let mut lastPipeLeft := false
+  let mut survivorTouched := false
+  let mut nsRemoved := false
   let mut nCalls : Nat := 0
   let mut nNonInit : Nat := 0
   -- one model system per watcher
@@ -269,6 +279,18 @@ def judge : Judge := liftJudge fun input obs => do
           if sortEnts os.live != mlive then
             agree := false
             if note == "" then note := s!"step {idx}: live set differs from the model"
+          -- namespace bookkeeping of a namespaced consumer
+          if w.namespaced then
+            if os.nsExists != -1 && (os.nsExists != 0) != sys'.w.cons.ns then
+              agree := false
+              if note == "" then note := s!"step {idx}: namespace existence differs from the model"
+            let cnt (st : CState) (sl : Nat) : Nat := (st.store.filter (fun e => e.1.1 == sl)).length
+            let (p0, g0) := (cnt sys.w.cons 0, cnt sys.w.cons 1)
+            let (p1, g1) := (cnt sys'.w.cons 0, cnt sys'.w.cons 1)
+            if g0 > 0 && p0 > 0 && g1 == 0 && p1 > 0 then lastGateLeft := true
+            if g0 > 0 && p0 > 0 && p1 == 0 && g1 > 0 then lastPipeLeft := true
+            if (lastGateLeft || lastPipeLeft) && !os.log.isEmpty then survivorTouched := true
+            if p0 + g0 > 0 && p1 + g1 == 0 then nsRemoved := true
           expected := expected ++ [Json.mkObj [("log", Json.arr (newCalls.map callJson).toArray),
             ("live", Json.arr (mlive.map entJson).toArray)]]
           -- executable specification, per name, on what the implementation did
@@ -345,6 +367,10 @@ def judge : Judge := liftJudge fun input obs => do
     ++ (if lateAttach then ["late-or-repeated-attach"] else [])
     ++ (if inp.panics.isEmpty then ["no-faults"] else ["faults"])
     ++ (if panicHit then ["panic-hit"] else [])
+    ++ (if lastGateLeft then ["ns:last-gate-leaves-pipelines-stay"] else [])
+    ++ (if lastPipeLeft then ["ns:last-pipeline-leaves-gates-stay"] else [])
+    ++ (if survivorTouched then ["ns:survivor-touched-later"] else [])
+    ++ (if nsRemoved then ["ns:namespace-emptied"] else [])
     ++ [if hist.length ≤ 6 then "len<=6" else if hist.length ≤ 16 then "len<=16" else "len>16"]
   pure { agree := agree, spec := spec, expected := Json.arr expected.toArray, tags := tags,
          nontrivial := nCalls ≥ 3 && nNonInit ≥ 1, sig := sig, note := note }
